@@ -10,7 +10,7 @@ for P in $PROPS; do
       [ -f "$PATCH" ] || continue
       S=$(mktemp -d /tmp/selftest.XXXXXX); rsync -a --exclude .git /repo/ $S/
       if ! (cd $S && patch -s -p1 < /verif/$PATCH); then echo "SELFTEST-ERROR $P $PATCH does not apply"; FAILS=$((FAILS+1)); rm -rf $S; continue; fi
-      OUT=$(./bin/govc -repo $S -prop $P -tier quick -replays /tmp/selftest-replays -noreplay 2>&1); RC=$?
+      OUT=$(./bin/govc -repo $S -prop $P -tier quick -known known_findings.json -replays /tmp/selftest-replays -noreplay 2>&1); RC=$?
       rm -rf $S /tmp/selftest-replays
       if [ $KIND = mutants ]; then
         if [ $RC -eq 1 ] && echo "$OUT" | grep -q "^VIOLATION property=$P"; then echo "ok   caught  $P $(basename $PATCH .patch): $(echo "$OUT" | grep -c '^VIOLATION') obligation(s), first: $(echo "$OUT" | grep -m1 '^VIOLATION' | sed 's/.*obligation=\([^ ]*\).*/\1/')"
